@@ -258,9 +258,9 @@ reg(
     "exploration",
     "every subset of <= k feature deviations from a base hierarchy, compared with a reference flattener",
     "A base library Leaf / Mid / Top (two instances of one class, three levels, equations over own and sub-component "
-    "variables) and every subset of <= 2 (quick) / <= 4 (thorough) of 34 feature deviations -- more instances, extends "
+    "variables) and every subset of <= 2 (quick) / <= 4 (thorough) of 38 feature deviations -- more instances, extends "
     "chains of length 1-3, two extends, inherited class-typed components and initial equations, classes found in an "
-    "enclosing package, a nested class as component type, type aliases of Real / Integer / Boolean, arrays of scalars "
+    "enclosing package, a nested class as component type (also one that inherits from a class of the enclosing scope and holds a component of an extending class, instantiated once or twice), input / output members declared with alias types, type aliases of Real / Integer / Boolean, arrays of scalars "
     "(subscripts and a for-equation), parameter / constant / discrete / input / output on a variable at every level, "
     "references to sub-sub-components, depth 4 -- are printed from our own hierarchy AST, flattened by the real "
     "tree.flatten and compared with vf.ref.flat: exactly one flat variable per elementary leaf named by its dotted path, "
@@ -301,7 +301,7 @@ reg(
     "reference: union-find connection sets over (connector, inside/outside), potential equalities, flow sums with "
     "inside + / outside -, zero for flows in no connection; the flat variables must be exactly the connector "
     "variables with their prefixes (no connector symbol survives).",
-    "Scalar connector variables only (no arrays of connectors, no expandable / stream connectors); self-connections "
+    "Connector names are chosen so that one flat name is a proper prefix of another (c1.p / c1.p2, t / t2). Scalar connector variables only (no arrays of connectors, no expandable / stream connectors); self-connections "
     "connect(a, a) are outside the alphabet.",
 )
 
